@@ -38,3 +38,20 @@ let () =
         else if V.is_html_kind_value v then specfail id "attribute_value_terminates_attribute_or_tag\tfinding=D5"
         else specfail id "attribute_value_terminates_attribute_or_tag"
       end)
+
+(* link_exec id <rel as written> <rel normalised> <value wire> <outcome> <out>  (harness/cmd/run/c03.go)
+   <link rel=R href={{.}}>: when the REVIEWED policy gives this rel the TrustedResourceURL class (the rel
+   rule does not fire: some value is not allow-listed, or there is none), only a value of that type may
+   be emitted; anything else accepted - a safehtml.URL used intact, a plain string only scheme-filtered -
+   is a value used outside the context its type covers. *)
+let () =
+  reg "link_exec" (fun f ->
+      let id = f.(1) in
+      let norm = bytes_of_hex f.(3) and w = string_of_bytes (bytes_of_hex f.(4)) and outcome = f.(5) in
+      let is_tru = has_prefix "safe:tru:" w || has_prefix "ptr:safe:tru:" w in
+      match V.reviewed_attr (bytes_of_string "link") (bytes_of_string "href") norm with
+      | Some n when n = V.n_TRU ->
+        if outcome = "ok" && not is_tru then specfail id "value_emitted_in_a_trusted_resource_url_only_context"
+        else ok id (if outcome = "ok" then "+tru_accepted" else "+refused_in_tru_only_context")
+      | Some _ -> ok id (if outcome = "ok" then "+url_context_accepts" else "url_context_refuses")
+      | None -> ok id "reviewed_deny")
